@@ -313,3 +313,45 @@ impl D {
         }
     }
 }
+
+/// C12 for semantic diagnostics: every diagnostic of the top-level text (tag "no file") has a range within the
+/// text, on character boundaries, that is the range of a node of the text's syntax tree.
+pub fn sem_range_violation(text: &str, o: &SemaOut) -> Option<String> {
+    if o.panic.is_some() || o.errors.is_empty() {
+        return None;
+    }
+    let node_ranges = |t: &str| -> std::collections::HashSet<(u32, u32)> {
+        let parse = oq3_syntax::SourceFile::parse(t);
+        parse.syntax_node().descendants().map(|n| (u32::from(n.text_range().start()), u32::from(n.text_range().end()))).collect()
+    };
+    let top = node_ranges(text);
+    for (k, a, b, file) in &o.errors {
+        // a diagnostic of an included file refers to that file's text and tree
+        let other: Option<(String, std::collections::HashSet<(u32, u32)>)> = if file == "no file" || file == "fake.qasm" {
+            None
+        } else {
+            match std::fs::read_to_string(file) {
+                Ok(t) => {
+                    let r = node_ranges(&t);
+                    Some((t, r))
+                }
+                Err(_) => continue,
+            }
+        };
+        let (text, ranges): (&str, &std::collections::HashSet<(u32, u32)>) = match &other {
+            Some((t, r)) => (t.as_str(), r),
+            None => (text, &top),
+        };
+        let (ua, ub) = (*a as usize, *b as usize);
+        if !(ua <= ub && ub <= text.len()) {
+            return Some(format!("FAIL C12: semantic diagnostic {k} has range {a}..{b} outside the text of length {}", text.len()));
+        }
+        if !text.is_char_boundary(ua) || !text.is_char_boundary(ub) {
+            return Some(format!("FAIL C12: semantic diagnostic {k} has range {a}..{b} inside a character"));
+        }
+        if !ranges.contains(&(*a, *b)) {
+            return Some(format!("FAIL C12: the range {a}..{b} (`{}`) of semantic diagnostic {k} is not the range of a node of the tree", &text[ua..ub]));
+        }
+    }
+    None
+}
